@@ -6,9 +6,9 @@ ids = [json.loads(l)["id"] for l in open(f"{ROOT}/properties.jsonl")]
 DST = "deterministic simulation with fault injection: "
 CLAIMED = {
  "C01": ("exploration", DST + "seeded send/flush/save/purge/retention/restart histories vs. reference log model",
-         "Seeded search over histories and storage configurations; every offset the real server assigns (observed through the real SDK over the simulated transport) must equal the reference log's, also after restarts, purges and retention passes.", "polls at quiescent points; sampling evidence", "4.C01"),
+         "Seeded search over histories and storage configurations; every offset the real server assigns (observed through the real SDK over the simulated transport) must equal the reference log's, also after restarts, purges and retention passes.", "polls at quiescent points; 15% of the runs are the disk-fault arm (injected errors and torn writes on log/index files during sends, flushes and saves) judged by a narrow relaxation (DESIGN 9.2); sampling evidence", "4.C01"),
  "C02": ("exploration", DST + "every poll kind compared field by field with the model slice under a configuration swarm",
-         "After every step of seeded histories, polls of every kind are compared with the reference slice; tier placement (cache, unsaved buffer, disk, several segments/batches, after reload) is forced by the configuration swarm.", "polls judged at quiescent points; messages of deleted segments may be served from the cache (statement silent)", "4.C02"),
+         "After every step of seeded histories, polls of every kind are compared with the reference slice; tier placement (cache, unsaved buffer, disk, several segments/batches, after reload) is forced by the configuration swarm.", "polls judged at quiescent points; messages of deleted segments may be served from the cache (statement silent); disk-fault arm as for C01", "4.C02"),
  "C03": ("exploration", DST + "snapshot equality across simulated clean restarts at seeded history positions",
          "Real System::shutdown (or flush-all + kill), process-global reset, real System::init on the same directory; full snapshot before == after, traffic continues against the unchanged model; lost index files; watchdog for restarts that never complete.", "graceful stop modelled per server/src/main.rs (runtime dropped right after shutdown, or after draining)", "4.C03"),
  "C04": ("fault_enumeration", DST + "crash image at every file-mutation boundary of a recorded run + torn variants of the last write, booted by the real recovery code",
